@@ -322,6 +322,15 @@ Proof.
   intros Q. simpl in Q. subst ex. rewrite bytes_eqb_refl in E. discriminate.
 Qed.
 
+Lemma validate_no_panic_lemma d s :
+  (forall ac, unmarshal HS s = UOk ac -> NoDup (map fst ac)) ->
+  validate HS d (Some s) <> VPanic.
+Proof.
+  intros H. unfold validate. destruct (unmarshal HS s) as [ac| |] eqn:U; try discriminate.
+  destruct (validate_hf_no_panic ac (newhash HS d) (H ac eq_refl)) as [V|[l [t [p [f [r V]]]]]];
+    rewrite V; discriminate.
+Qed.
+
 Hypothesis HS_shape : forall x, hash_ok (HS x).
 
 (** ** step 1: header equality.  Whatever [d] was hashed (no condition on
